@@ -523,6 +523,12 @@ def m_unzip(I, a, e, ci):
     return Tup([it.vec.map(lambda t: t.items[0]), it.vec.map(lambda t: t.items[1])])
 
 
+@model("std::vec::Vec::<T, A>::as_mut_slice", "core::slice::<impl [T]>::as_mut", "std::vec::Vec::<T, A>::as_mut", places=(0,))
+def m_as_mut_slice(I, a, e, ci):
+    # `v.as_mut_slice()` is `&mut v[..]`: the place itself
+    return a[0]
+
+
 @model("std::mem::swap", places=(0, 1))
 def m_swap(I, a, e, ci):
     x, y = I.deref(a[0].get()), I.deref(a[1].get())
@@ -570,10 +576,21 @@ def m_max(I, a, e, ci):
 
 @model("core::num::<impl usize>::trailing_zeros", "core::num::<impl u32>::leading_zeros", "core::num::<impl usize>::is_power_of_two", "core::num::<impl usize>::leading_zeros", "core::num::<impl u64>::leading_zeros", "core::num::<impl u64>::trailing_zeros", "core::num::<impl u32>::trailing_zeros")
 def m_intfn(I, a, e, ci):
-    name = (ci.get("path") or "").split("::")[-1]
+    path = ci.get("path") or ""
+    name = path.split("::")[-1]
     if name == "is_power_of_two":
         return BoolV(Cond("is_pow2", sp.expand(a[0].e)))
+    if name == "leading_zeros" and ("impl usize" in path or "impl u64" in path):
+        # 64-bit count of a value below 2^32 (every count here is: lengths, gate counts, indices) = 32 + the 32-bit count;
+        # one canonical atom, so `63 - clz64(i)`, `31 - clz32(i)` and `ilog2(i)` are the same term
+        return IntV(32 + sfun(name)(sp.expand(a[0].e)))
     return IntV(sfun(name)(sp.expand(a[0].e)))
+
+
+@model("core::num::<impl usize>::ilog2", "core::num::<impl u32>::ilog2", "core::num::<impl u64>::ilog2")
+def m_ilog2(I, a, e, ci):
+    # floor(log2 x) = 31 - clz32(x) for 0 < x < 2^32 (the canonical spelling of the reference code)
+    return IntV(31 - sfun("leading_zeros")(sp.expand(a[0].e)))
 
 
 # ---------------------------------------------------------------------------
@@ -1240,6 +1257,28 @@ def m_fold(I, a, e, ci):
     for s in fvec.nonempty_segs():
         if s.n == 1:
             acc = I.deref(I.apply_closure(f, [acc, I.bind_slots(s.f(sp.Integer(0)), e)]))
+            continue
+        if not isinstance(acc, Sc) and not isinstance(acc, Val):
+            # an effect object threaded through the closure (`fold(builder, |b, x| b.rekey(.., x))`): one generic
+            # application under a loop context, exactly like `for x in v { b = b.rekey(.., x) }`; the closure must hand
+            # the same object on and have no transcript effects
+            j = fresh("j", integer=True, nonnegative=True)
+            old_b = I.bounds
+            I.bounds = I.bounds.with_ub(j, s.n)
+            I.loop_log.append({"n": s.n, "off": sp.Integer(0), "where": where, "fn": I.fn_stack[-1] if I.fn_stack else ""})
+            I.loop_ctx.append({"isym": j, "n": s.n, "off": sp.Integer(0), "writes": [], "pushes": [], "elem_updates": [], "reads": [], "where": where, "node": e, "outer_ids": set()})
+            old_trace = I.sub_trace()
+            try:
+                new = I.deref(I.apply_closure(f, [acc, I.bind_slots(s.f(j), e)]))
+            finally:
+                I.loop_ctx.pop()
+                I.bounds = old_b
+                sub = I.trace
+                I.trace = old_trace
+            if sub.items:
+                raise Unanalysable("effects inside a fold closure", where)
+            if new is not acc:
+                raise Unanalysable(f"fold over a symbolic range whose closure does not hand its accumulator object on ({acc!r} -> {new!r})", where)
             continue
         if not isinstance(acc, Sc):
             raise Unanalysable(f"fold with an accumulator of kind {acc!r} over a symbolic range", where)
